@@ -133,8 +133,11 @@ func NewIVFPQIndex(dim int, distanceKind DistanceKind, nlist int, m int, nbits i
 	}
 
 	// Validate Nbits
-	if nbits <= 0 || nbits > 16 {
-		return nil, fmt.Errorf("parameter Nbits must be in [1,16]")
+	// Codes are stored one byte per subspace ([]uint8), so at most 2^8 centroids
+	// per subspace can be addressed; a larger Nbits would silently truncate the
+	// centroid index when encoding.
+	if nbits <= 0 || nbits > 8 {
+		return nil, fmt.Errorf("parameter Nbits must be in [1,8]")
 	}
 
 	// Create distance calculator
